@@ -1,6 +1,7 @@
 package main
 
 import (
+	"slices"
 	"encoding/json"
 	"flag"
 	"fmt"
@@ -14,6 +15,7 @@ import (
 
 	"github.com/go-spatial/geom"
 	gsgpkg "github.com/go-spatial/geom/encoding/gpkg"
+	"github.com/pdok/texel/pointindex"
 	"github.com/pdok/texel/snap"
 	"github.com/pdok/texel/tms20"
 )
@@ -125,13 +127,33 @@ func cliMake(args []string) int {
 	}
 	pix := 3440.64 / math.Pow(2, float64(minZ)) / 16
 	otherSet := false
-	if *mode == "normal" && rng.Intn(4) == 0 {
+	if *mode == "normal" && rng.Intn(3) == 0 {
 		// one of the other tile matrix sets the tool accepts (the coordinates of the RD window lie well inside their extents)
 		c.Tms = []string{"WebMercatorQuad", "UPSArcticWGS84Quad", "UPSAntarcticWGS84Quad", "WorldMercatorWGS84Quad"}[rng.Intn(4)]
 		if t, err := tms20.LoadEmbeddedTileMatrixSet(c.Tms); err == nil {
 			pix = t.TileMatrices[minZ].CellSize / 16
 		}
 		otherSet = true
+		if rng.Intn(3) > 0 {
+			// a deep tile matrix in the list, first as often as last: the deviation warning of validation must refer to it
+			if len(c.Ids) == 1 && rng.Intn(2) == 0 {
+				c.Ids = append(c.Ids, 1+rng.Intn(12))
+			}
+			c.Ids[0] = 18 + rng.Intn(3)
+			seen := map[int]bool{}
+			ids := []int{}
+			for _, z := range c.Ids {
+				if !seen[z] {
+					seen[z] = true
+					ids = append(ids, z)
+				}
+			}
+			c.Ids = ids
+			if rng.Intn(2) == 0 {
+				slices.Reverse(c.Ids)
+			}
+		}
+	}
 	}
 	// tables
 	var tables []*srcTable
@@ -251,6 +273,21 @@ func cliObserve(args []string) int {
 		fatal("%v", err)
 	}
 	rec := map[string]any{"case": c, "exit": *exit, "panic": *panicked, "target_chars": chars(c.Target)}
+	// the deviation the tool must report when it validates the set (C03, last sentence): that of the DEEPEST requested matrix
+	devNeed, devMicro, devMax := false, int64(0), 0
+	for _, z := range c.Ids {
+		if z > devMax {
+			devMax = z
+		}
+	}
+	if c.ValidTms {
+		if t, lerr := tms20.LoadEmbeddedTileMatrixSet(c.Tms); lerr == nil {
+			if _, units, pixels, derr := pointindex.DeviationStats(t, devMax); derr == nil {
+				devNeed, devMicro = pixels >= 1, int64(math.Round(units*1e6))
+			}
+		}
+	}
+	rec["dev"] = map[string]any{"need": devNeed, "exp_micro": devMicro, "maxid": devMax}
 	files := listFiles(filepath.Join(*dir, "out"))
 	fc := [][]string{}
 	for _, f := range files {
